@@ -27,7 +27,13 @@ type corruptor struct {
 	st  *state
 	r   *prng.R
 	out []cand
+	// want >= 0: only candidate number `want` is materialised (blocks built, signed, decoded); the others
+	// are listed by name. The random stream is drawn identically either way.
+	want int
 }
+
+// skip reports whether the candidate about to be appended need not be built.
+func (c *corruptor) skip() bool { return c.want >= 0 && len(c.out) != c.want }
 
 func (c *corruptor) base() (hdrFields, []*transaction.Transaction) {
 	return fieldsOf(&c.st.next.Header), append([]*transaction.Transaction{}, c.st.next.Transactions...)
@@ -35,6 +41,14 @@ func (c *corruptor) base() (hdrFields, []*transaction.Transaction) {
 
 // emit finalises a candidate: optionally recompute the Merkle root and re-sign by the validators.
 func (c *corruptor) emit(name, group string, f hdrFields, txs []*transaction.Transaction, remerkle, resign bool) {
+	if c.skip() {
+		signed := "orig"
+		if resign {
+			signed, name = "resigned", name+"+resigned"
+		}
+		c.out = append(c.out, cand{name: name, group: group, signed: signed})
+		return
+	}
 	if remerkle {
 		f.MerkleRoot = merkleOf(txs)
 	}
@@ -84,6 +98,9 @@ func (c *corruptor) header() {
 	mod("index+2", func(f *hdrFields) { f.Index += 2 })
 	mod("index=0", func(f *hdrFields) { f.Index = 0 })
 	mod("primary", func(f *hdrFields) { f.PrimaryIndex ^= 1 })
+	mod("primary=n-1", func(f *hdrFields) { f.PrimaryIndex = byte(st.v.nvals - 1) })
+	mod("primary=n", func(f *hdrFields) { f.PrimaryIndex = byte(st.v.nvals) })
+	mod("primary=255", func(f *hdrFields) { f.PrimaryIndex = 255 })
 	mod("nextconsensus=random", func(f *hdrFields) { f.NextConsensus = rnd160(r) })
 	mod("nextconsensus=bitflip", func(f *hdrFields) { f.NextConsensus[r.Intn(20)] ^= 1 << uint(r.Intn(8)) })
 	if st.spec.k.sr {
@@ -101,6 +118,10 @@ func (c *corruptor) witness() {
 	w := func(name string, m func(f *hdrFields)) {
 		f, txs := c.base()
 		m(&f)
+		if c.skip() {
+			c.out = append(c.out, cand{name: name, group: "witness", signed: "n/a"})
+			return
+		}
 		c.out = append(c.out, cand{name: name, group: "witness", signed: "n/a", blk: mkBlock(f, txs)})
 	}
 	flip := func(b []byte, pos int) []byte {
@@ -187,6 +208,16 @@ func (c *corruptor) txlist() {
 	}
 	if n >= 1 {
 		tl("dup-last", func(t []*transaction.Transaction) []*transaction.Transaction { return append(t, t[n-1]) }, "both")
+		// further members of the same-root family: a level above the leaves has an odd number of nodes
+		if n >= 5 && n%2 == 1 && ((n+1)/2)%2 == 1 {
+			tl("dup-last-x3(same-root)", func(t []*transaction.Transaction) []*transaction.Transaction { return append(t, t[n-1], t[n-1]) }, "both")
+			tl("dup-last-x4(same-root)", func(t []*transaction.Transaction) []*transaction.Transaction {
+				return append(t, t[n-1], t[n-1], t[n-1])
+			}, "both")
+		}
+		if n >= 6 && n%2 == 0 && (n/2)%2 == 1 {
+			tl("dup-last-pair(same-root)", func(t []*transaction.Transaction) []*transaction.Transaction { return append(t, t[n-2], t[n-1]) }, "both")
+		}
 		tl("dup-first-appended", func(t []*transaction.Transaction) []*transaction.Transaction { return append(t, t[0]) }, "both")
 		tl("dup-first-adjacent", func(t []*transaction.Transaction) []*transaction.Transaction {
 			return append([]*transaction.Transaction{t[0]}, t...)
@@ -276,6 +307,24 @@ func (c *corruptor) txlist() {
 	tl("prepend-expired", func(t []*transaction.Transaction) []*transaction.Transaction {
 		return append([]*transaction.Transaction{st.expired}, t...)
 	}, "resigned")
+	// transactions built to fail chosen conjuncts of the stand-alone verification, appended to the valid block
+	for i := range st.vars {
+		if v := &st.vars[i]; v.inBlock {
+			tl("var:"+v.name, app(v.tx), "resigned")
+		}
+	}
+	// two failing transactions: the first one decides
+	if t := st.varByName("two-signers"); t != nil && st.spec.poolMode >= 1 {
+		// pooled with both witnesses intact; the block carries a copy whose SECOND witness is corrupted
+		x := cloneTx(t)
+		x.Scripts[1].InvocationScript[2+r.Intn(64)] ^= 1 << uint(r.Intn(8))
+		st.label(x, false, "second-witness-corrupted(pooled-intact)")
+		tl("var:two-signers-pooled-second-witness-corrupted", app(x), "resigned")
+	}
+	if a, b := st.varByName("vub=h"), st.varByName("blocked-sender"); a != nil && b != nil { // expired / policy
+		tl("var:expired-then-blocked", app(a, b), "resigned")
+		tl("var:blocked-then-expired", app(b, a), "resigned")
+	}
 }
 
 func (c *corruptor) encoding() {
@@ -283,6 +332,10 @@ func (c *corruptor) encoding() {
 	raw := encodeBlock(st.next)
 	sre := st.spec.k.sr
 	e := func(name string, bs []byte) {
+		if c.skip() {
+			c.out = append(c.out, cand{name: name, group: "encoding", signed: "orig"})
+			return
+		}
 		b, err := decodeBlock(bs, sre)
 		c.out = append(c.out, cand{name: name, group: "encoding", signed: "orig", blk: b, raw: bs, decErr: err != nil})
 	}
@@ -334,12 +387,20 @@ func (c *corruptor) encoding() {
 
 func (c *corruptor) control() {
 	f, txs := c.base()
-	c.out = append(c.out, cand{name: "valid", group: "control", signed: "orig", blk: mkBlock(f, txs)})
+	if c.skip() {
+		c.out = append(c.out, cand{name: "valid", group: "control", signed: "orig"})
+	} else {
+		c.out = append(c.out, cand{name: "valid", group: "control", signed: "orig", blk: mkBlock(f, txs)})
+	}
+	c.out = append(c.out, cand{name: "txverify", group: "txverify", signed: "n/a"})
 }
 
-func corruptions(st *state, r *prng.R) []cand {
+func corruptions(st *state, r *prng.R) []cand { return corruptionsFor(st, r, -1) }
+
+// corruptionsFor lists all candidates and materialises only number `want` (-1: all).
+func corruptionsFor(st *state, r *prng.R, want int) []cand {
 	st.useState()
-	c := &corruptor{st: st, r: r}
+	c := &corruptor{st: st, r: r, want: want}
 	c.control()
 	c.header()
 	c.witness()
